@@ -953,7 +953,11 @@ func (ctx *Context) evaluate() {
 
 		case typeDiceCocBonus, typeDiceCocPenalty:
 			t := stackPop()
-			diceNum := t.MustReadInt()
+			diceNum, ok := t.ReadInt()
+			if !ok {
+				ctx.Error = errors.New("奖惩骰个数必须为整数")
+				return
+			}
 
 			if numOpCountAdd(diceNum) {
 				return
@@ -979,27 +983,52 @@ func (ctx *Context) evaluate() {
 			// if v.TypeId != VMTypeInt {
 			//   // ...
 			// }
-			wodState.points = v.MustReadInt()
+			points, ok := v.ReadInt()
+			if !ok {
+				ctx.Error = errors.New("E6: 类型错误, 面数必须为整数")
+				return
+			}
+			wodState.points = points
 		case typeWodSetThreshold:
 			v := stackPop()
-			wodState.threshold = v.MustReadInt()
+			threshold, ok := v.ReadInt()
+			if !ok {
+				ctx.Error = errors.New("E6: 类型错误, 成功线必须为整数")
+				return
+			}
+			wodState.threshold = threshold
 			wodState.isGE = true
 		case typeWodSetThresholdQ:
 			v := stackPop()
-			wodState.threshold = v.MustReadInt()
+			threshold, ok := v.ReadInt()
+			if !ok {
+				ctx.Error = errors.New("E6: 类型错误, 成功线必须为整数")
+				return
+			}
+			wodState.threshold = threshold
 			wodState.isGE = false
 		case typeWodSetPool:
 			v := stackPop()
-			wodState.pool = v.MustReadInt()
+			pool, ok := v.ReadInt()
+			if !ok {
+				ctx.Error = errors.New("E6: 类型错误, 骰池必须为整数")
+				return
+			}
+			wodState.pool = pool
 		case typeDiceWod:
 			v := stackPop() // 加骰线
-
-			// 变量检查
-			if !wodCheck(ctx, v.MustReadInt(), wodState.pool, wodState.points, wodState.threshold) {
+			addLine, ok := v.ReadInt()
+			if !ok {
+				ctx.Error = errors.New("E6: 类型错误, 加骰线必须为整数")
 				return
 			}
 
-			num, _, _, detailText := RollWoD(ctx.RandSrc, v.MustReadInt(), wodState.pool, wodState.points, wodState.threshold, wodState.isGE, getRollMode())
+			// 变量检查
+			if !wodCheck(ctx, addLine, wodState.pool, wodState.points, wodState.threshold) {
+				return
+			}
+
+			num, _, _, detailText := RollWoD(ctx.RandSrc, addLine, wodState.pool, wodState.points, wodState.threshold, wodState.isGE, getRollMode())
 			ret := NewIntVal(num)
 			details[len(details)-1].Ret = ret
 			details[len(details)-1].Text = detailText
@@ -1011,16 +1040,31 @@ func (ctx *Context) evaluate() {
 			dcInit()
 		case typeDCSetPool:
 			v := stackPop()
-			dcState.pool = v.MustReadInt()
-		case typeDCSetPoints:
-			v := stackPop()
-			dcState.points = v.MustReadInt()
-		case typeDiceDC:
-			v := stackPop() // 暴击值 / 也可以理解为加骰线
-			if !doubleCrossCheck(ctx, v.MustReadInt(), dcState.pool, dcState.points) {
+			pool, ok := v.ReadInt()
+			if !ok {
+				ctx.Error = errors.New("E6: 类型错误, 骰池必须为整数")
 				return
 			}
-			success, _, _, detailText := RollDoubleCross(nil, v.MustReadInt(), dcState.pool, dcState.points, getRollMode())
+			dcState.pool = pool
+		case typeDCSetPoints:
+			v := stackPop()
+			points, ok := v.ReadInt()
+			if !ok {
+				ctx.Error = errors.New("E6: 类型错误, 面数必须为整数")
+				return
+			}
+			dcState.points = points
+		case typeDiceDC:
+			v := stackPop() // 暴击值 / 也可以理解为加骰线
+			addLine, ok := v.ReadInt()
+			if !ok {
+				ctx.Error = errors.New("E6: 类型错误, 暴击值必须为整数")
+				return
+			}
+			if !doubleCrossCheck(ctx, addLine, dcState.pool, dcState.points) {
+				return
+			}
+			success, _, _, detailText := RollDoubleCross(nil, addLine, dcState.pool, dcState.points, getRollMode())
 			ret := NewIntVal(success)
 			details[len(details)-1].Ret = ret
 			details[len(details)-1].Text = detailText
